@@ -36,9 +36,16 @@ func c14CallStmt(dst, dep string) *sysl.Statement {
 	return &sysl.Statement{Stmt: &sysl.Statement_Call{Call: &sysl.Call{Target: &sysl.AppName{Part: []string{dst}}, Endpoint: dep}}}
 }
 
+// c14ReturnFirst: the statement before a nested call is a return instead of an action
+var c14ReturnFirst bool
+
 // c14Wrap nests a statement inside the statement kind k (0 = not nested).
 func c14Wrap(k int, s *sysl.Statement) *sysl.Statement {
 	in := []*sysl.Statement{{Stmt: &sysl.Statement_Action{Action: &sysl.Action{Action: "pre"}}}, s}
+	if c14ReturnFirst {
+		// a return statement does not end the list of calls an endpoint makes
+		in = []*sysl.Statement{{Stmt: &sysl.Statement_Ret{Ret: &sysl.Return{Payload: "early"}}}, s}
+	}
 	switch k {
 	case 1:
 		return &sysl.Statement{Stmt: &sysl.Statement_Cond{Cond: &sysl.Cond{Test: "c", Stmt: in}}}
@@ -197,10 +204,16 @@ func Harness_C14_CallGraph() {
 func Harness_C14_Nesting() {
 	k1 := nd.IntRange("kind-outer", 0, 6)
 	k2 := nd.IntRange("kind-inner", 0, 6)
+	c14ReturnFirst = nd.Bool("return-before-the-call")
 	human, hidden := c14NoFlags()
 	m := c14Build(nil, human, hidden)
 	inner := c14Wrap(k2, c14CallStmt("B", "e1"))
-	m.mod.Apps["A"].Endpoints["e0"].Stmt = []*sysl.Statement{c14Wrap(k1, inner)}
+	stmts := []*sysl.Statement{c14Wrap(k1, inner)}
+	if nd.Bool("return-before-the-block") {
+		stmts = []*sysl.Statement{{Stmt: &sysl.Statement_Ret{Ret: &sysl.Return{Payload: "first"}}}, stmts[0]}
+	}
+	c14ReturnFirst = false
+	m.mod.Apps["A"].Endpoints["e0"].Stmt = stmts
 	m.calls = []c14Call{{src: 0, sep: 0, dst: 1, dep: 1}}
 	listed := []bool{true, false, false}
 	none := []bool{false, false, false}
